@@ -134,6 +134,13 @@ def run(ctx):
             add({"chunks": allc, "garbage": True, "foreign_id": "someone-else"}, "foreign-id", size=size)
             add({"chunks": allc, "garbage": True, "flip_bit": 1 + rng.below(8 * 30)}, "sidecar-bit-flip", size=size)
             add({"chunks": allc, "garbage": True, "trunc_sidecar": 1 + rng.below(40)}, "sidecar-truncated", size=size)
+    # resume metadata of an interrupted run that wrote into <out>/<root> (its out dir was that directory) while this run writes into <out>,
+    # where a file of the same name and length already stands: that metadata describes another data file
+    for size in (74, 96, 200):
+        total = (size + 31) // 32
+        for chunks in (list(range(total)), [0], sorted({0, total - 1})):
+            add({"chunks": chunks, "elsewhere": True}, "state-of-another-directory", size=size)
+            cases[-1]["noroot"] = True
     # frames that overtake their FileBegin (the receiver handles it later than the sender's resume grace) for a file whose chunks are all
     # recorded and whose last chunk is torn, with a display callback that takes time (the CLI installs one): the readers parked on those
     # frames must not find the file complete
@@ -183,7 +190,7 @@ def run(ctx):
         "rule": "sidecars from the real CreateSidecar/Flush over (chunk in {1,7,32,64,4096}) x (total 0..70, byte-boundary totals) x random bitmaps and ids; EVERY single-bit flip and EVERY truncation of the small ones, "
                 "sampled flips/truncations of the others, trailing bytes, random garbage, magic+version prefixes -> LoadSidecar vs model; identity rule with each field changed; "
                 "resumed end-to-end transfers (netsim and mock, 1-3 streams, both root modes) from: legit partial, highest chunk damaged, all complete + last damaged, data file deleted / shortened, "
-                "foreign chunk size (also one giving the same chunk count) / file size / id, bit-flipped and truncated sidecar (data file full of garbage so that any trusted bit shows), a complete temp sidecar left behind by a kill inside a flush (with the data file deleted / intact); "
+                "foreign chunk size (also one giving the same chunk count) / file size / id, metadata of a run into <out>/<root> next to an unrelated same-length file at <out>/<file>, bit-flipped and truncated sidecar (data file full of garbage so that any trusted bit shows), a complete temp sidecar left behind by a kill inside a flush (with the data file deleted / intact); "
                 "resume reports (every bitmap shape on 1-8 chunks x hash good/bad/unknown in the CLI configuration; random bitmaps on 1-33 chunks x tail 0..total+2 x verify modes x hash algorithms x "
                 "reported last-verified chunk (true or arbitrary) x hash good/bad/unknown/zero) answered by a scripted receiver to the real sender: multiset of chunk frames that travel and planned-skip count vs Model/Resume",
         "samples": [ser_cases[0], parse_cases[3][:100], load_cases[1][:120], cases[0]["name"]],
